@@ -366,8 +366,10 @@ func vmCheck(sz vmSizes) func(c *core.Ctx, cases []engCase) []core.Outcome {
 				}
 				snap := regexp2.VerifRunnerSnapshot(p.re)
 				switch {
-				case mh+2 > 4*tc:
-					o.Fail = &core.Failure{Kind: "correspondence-break", Key: "W:stackcap:height", Summary: fmt.Sprintf("%s program of %q (options %d): the largest height of the grouping-stack typing is %d, so H+2 > 4*TrackCount = %d: the hypothesis under which the runstack doubling of ensureStorage is dead code (vm_stack_never_grows) fails: %v", p.which, cs.Pattern, cs.Opts, mh, 4*tc, p.code.Codes), Expected: fmt.Sprintf("maxHeight+2 <= %d", 4*tc), Got: fmt.Sprint(mh + 2)}
+				case mh+2 > 2*tc:
+					// proved for the writer model: emit_height_closed (H+2 <= 2*TrackCount, hence <= 4*TrackCount, the
+					// hypothesis of vm_stack_never_grows from the first allocation); evaluated here on the real Code as a cross-check
+					o.Fail = &core.Failure{Kind: "correspondence-break", Key: "W:stackcap:height", Summary: fmt.Sprintf("%s program of %q (options %d): the largest height of the grouping-stack typing is %d, so H+2 > 2*TrackCount = %d: the closed-form height bound of emitted programs (emit_height_closed), under which the runstack doubling of ensureStorage is dead code (emitted_stack_no_overflow), fails: %v", p.which, cs.Pattern, cs.Opts, mh, 2*tc, p.code.Codes), Expected: fmt.Sprintf("maxHeight+2 <= %d", 2*tc), Got: fmt.Sprint(mh + 2)}
 				case deep > mh+2:
 					o.Fail = &core.Failure{Kind: "correspondence-break", Key: "W:stackcap:depth", Summary: fmt.Sprintf("%s program of %q (options %d) on %q: executeDefault used %d grouping-stack slots, more than maxHeight+2 = %d (vm_stack_no_overflow)", p.which, cs.Pattern, cs.Opts, string(p.text), deep, mh+2), Expected: fmt.Sprintf("<= %d", mh+2), Got: fmt.Sprint(deep)}
 				case snap.StackLen != 0 && snap.StackLen != sAlloc:
@@ -380,6 +382,14 @@ func vmCheck(sz vmSizes) func(c *core.Ctx, cases []engCase) []core.Outcome {
 				}
 				if snap.StackLen == sAlloc {
 					o.Buckets = append(o.Buckets, "stackcap=never-grew")
+				}
+				switch slack := 2*tc - (mh + 2); {
+				case slack <= 2:
+					o.Buckets = append(o.Buckets, "stackheight-slack<=2")
+				case slack <= 8:
+					o.Buckets = append(o.Buckets, "stackheight-slack=3..8")
+				default:
+					o.Buckets = append(o.Buckets, "stackheight-slack>8")
 				}
 				if snap.CrawlLen > cAlloc {
 					o.Buckets = append(o.Buckets, "crawlcap=doubled")
